@@ -1,5 +1,156 @@
-From Coq Require Import List NArith ZArith Bool.
+(* C20 - database URLs round-trip through their string form.
+   Statements only; every proof is [exact <lemma>].  [uw] is Python's \w on non-ASCII code points (any
+   predicate); strings are lists of code points. *)
+From Coq Require Import List NArith ZArith Bool Permutation.
 Import ListNotations.
-From SAV.sql Require Import UrlCodec Url.
-Example c20_tmp : parse (fun _ => false) [120; 58; 47; 47; 104]%N = Ok (mkUrl [120]%N None None (Some [104]%N) None None []).
+From SAV.sql Require Import UrlCodec Url UrlListProofs UrlCodecProofs UrlSplitProofs UrlProofs.
+Open Scope N_scope.
+
+(* ---- the library layer (Gallina versions validated against CPython on every run) ---- *)
+
+(* UTF-8: decoding (errors='replace') inverts encoding on all Unicode scalar values, 1 to 4 bytes *)
+Theorem c20_utf8_roundtrip : forall s, forallb scalar s = true -> utf8_dec (utf8 s) = s.
+Proof. exact utf8_roundtrip. Qed.
+Print Assumptions c20_utf8_roundtrip.
+
+(* unquote inverts quote for every ASCII safe set without '%', whatever the text *)
+Theorem c20_unquote_quote : forall safe s q, forallb ascii safe = true -> mem 37 safe = false ->
+  quote safe s = Some q -> unquote q = s.
+Proof. exact unquote_quote. Qed.
+Print Assumptions c20_unquote_quote.
+
+Theorem c20_unquote_plus_quote_plus : forall s q, quote_plus s = Some q -> unquote_plus q = s.
+Proof. exact unquote_plus_quote_plus. Qed.
+Print Assumptions c20_unquote_plus_quote_plus.
+
+(* int(str(port)) = port for every integer *)
+Theorem c20_int_str : forall z, py_int (str_of_Z z) = Some z.
+Proof. exact py_int_str_of_Z. Qed.
+Print Assumptions c20_int_str.
+
+(* ---- make_url never moves text between components ---- *)
+
+(* For literal component texts that satisfy side conditions stated on each text ALONE (user: no ':' '/';
+   password: no '@'; host: "[...]" or bare without ':'; port/database/query: free of their terminators
+   and of '@'), the regex splits the assembled string exactly at the component boundaries, and every
+   field of the parsed URL is a function of the corresponding literal text alone. *)
+Theorem c20_no_text_moves : forall uw c, comp_ok uw c = true ->
+  parse uw (assemble c) =
+  bind (dec_port (c_port c)) (fun po =>
+  Ok (mkUrl (c_drv c) (dec_text (c_user c)) (dec_text (c_pass c)) (dec_host (c_host c)) po
+            (dec_text (c_db c)) (dec_query (c_query c)))).
+Proof. exact parse_assembled. Qed.
+Print Assumptions c20_no_text_moves.
+
+(* render_as_string is that assembly, of texts computed from one URL component each ([enc]), and the
+   texts it produces satisfy the side conditions: rendering never raises on a well-formed URL *)
+Theorem c20_render_componentwise : forall uw u, wf uw u = true ->
+  render u = Ok (assemble (enc u)) /\ comp_ok uw (enc u) = true.
+Proof. intros uw u H. exact (conj (render_is_assembly uw u H) (enc_comp_ok uw u H)). Qed.
+Print Assumptions c20_render_componentwise.
+
+(* ---- the round trip ---- *)
+
+(* make_url(u.render_as_string(hide_password=False)) is u with the query dict listed in sorted key
+   order ... *)
+Theorem c20_url_roundtrip_guarded : forall uw u, wf uw u = true -> roundtrip uw u = Ok (canon u).
+Proof. exact roundtrip_wf. Qed.
+Print Assumptions c20_url_roundtrip_guarded.
+
+(* ... which is the same URL for URL.__eq__ (fields equal, query equal as a dict) *)
+Theorem c20_url_roundtrip_equal : forall uw u, wf uw u = true ->
+  exists s u', render u = Ok s /\ parse uw s = Ok u' /\ url_eq u' u.
+Proof. exact roundtrip_eq. Qed.
+Print Assumptions c20_url_roundtrip_equal.
+
+(* and literally the same value when the dict already lists its keys in sorted order *)
+Theorem c20_url_roundtrip_sorted_keys : forall uw u, wf uw u = true ->
+  sort_keys (map fst (u_query u)) = map fst (u_query u) -> roundtrip uw u = Ok u.
+Proof. exact roundtrip_sorted. Qed.
+Print Assumptions c20_url_roundtrip_sorted_keys.
+
+(* ---- defects of the unchanged code: inside the property's domain, outside the guard ---- *)
+Theorem c20_singleton_sequence_refuted : forall uw, exists u u',
+  domain uw u = true /\ roundtrip uw u = Ok u' /\ ~ url_eq u' u.
+Proof. exact singleton_sequence_refuted. Qed.
+Print Assumptions c20_singleton_sequence_refuted.
+
+Theorem c20_empty_sequence_refuted : forall uw, exists u u',
+  domain uw u = true /\ roundtrip uw u = Ok u' /\ ~ url_eq u' u.
+Proof. exact empty_sequence_refuted. Qed.
+Print Assumptions c20_empty_sequence_refuted.
+
+Theorem c20_password_without_user_refuted : forall uw, exists u u',
+  domain uw u = true /\ roundtrip uw u = Ok u' /\ ~ url_eq u' u.
+Proof. exact password_without_user_refuted. Qed.
+Print Assumptions c20_password_without_user_refuted.
+
+Theorem c20_url_roundtrip_unguarded_refuted : forall uw,
+  ~ (forall u, domain uw u = true -> exists u', roundtrip uw u = Ok u' /\ url_eq u' u).
+Proof. exact roundtrip_unguarded_refuted. Qed.
+Print Assumptions c20_url_roundtrip_unguarded_refuted.
+
+(* ---- non-vacuity ---- *)
+Definition uw0 : N -> bool := fun _ => false.
+(* "a@b:c/d?e#f%g+h&i=j[k] l" followed by U+E9, U+20AC, U+1F600 *)
+Definition nasty : str :=
+  [97; 64; 98; 58; 99; 47; 100; 63; 101; 35; 102; 37; 103; 43; 104; 38; 105; 61; 106; 91; 107; 93; 32; 108;
+   233; 8364; 128512].
+Definition ex_url : url :=
+  mkUrl [112; 111; 115; 116; 103; 114; 101; 115; 113; 108; 43; 112; 115; 121; 99; 111; 112; 103; 50]
+        (Some nasty) (Some nasty) (Some [102; 101; 56; 48; 58; 58; 49]) (Some 5432%Z) (Some nasty)
+        [(nasty, QStr nasty); ([107], QSeq [nasty; []])].
+
+(* the guard holds for a URL with every special character in every text component, an IPv6 host, a
+   port, a repeated key with a blank value; and it round-trips to itself *)
+Example c20_ex_wf_special : wf uw0 ex_url = true.
+Proof. vm_compute. reflexivity. Qed.
+Example c20_ex_roundtrip_special : roundtrip uw0 ex_url = Ok ex_url.
+Proof. vm_compute. reflexivity. Qed.
+(* URL.create("x", username="a@:/ " + U+E9, host="h") renders as x://a%40%3A%2F %C3%A9@h *)
+Example c20_ex_render :
+  render (mkUrl [120] (Some [97; 64; 58; 47; 32; 233]) None (Some [104]) None None [])
+  = Ok [120; 58; 47; 47; 97; 37; 52; 48; 37; 51; 65; 37; 50; 70; 32; 37; 67; 51; 37; 65; 57; 64; 104].
+Proof. vm_compute. reflexivity. Qed.
+(* the literal components of that string satisfy the side conditions of c20_no_text_moves *)
+Example c20_ex_comp_ok : comp_ok uw0 (enc ex_url) = true.
+Proof. vm_compute. reflexivity. Qed.
+(* insertion order b, a: the parse lists a, b - the same dict *)
+Example c20_ex_key_order :
+  roundtrip uw0 (mkUrl [120] None None None None None [([98], QStr [49]); ([97], QStr [50])])
+  = Ok (mkUrl [120] None None None None None [([97], QStr [50]); ([98], QStr [49])]).
+Proof. vm_compute. reflexivity. Qed.
+(* the blank query value (repaired by 7ad97ba: keep_blank_values=True) round-trips; without the flag
+   the key was lost *)
+Example c20_ex_blank_value_fixed :
+  roundtrip uw0 (mkUrl [120] None None None None None [([97], QStr [])])
+  = Ok (mkUrl [120] None None None None None [([97], QStr [])]).
+Proof. vm_compute. reflexivity. Qed.
+Example c20_ex_blank_value_before_fix : accumulate (parse_qsl false [97; 61]) = [].
+Proof. vm_compute. reflexivity. Qed.
+(* a raw '@' outside the userinfo is what the side conditions of c20_no_text_moves exclude:
+   x://h:5/db?a=b@c parses as user "h", password "5/db?a=b", host "c" *)
+Example c20_ex_at_in_query :
+  parse uw0 [120; 58; 47; 47; 104; 58; 53; 47; 100; 98; 63; 97; 61; 98; 64; 99]
+  = Ok (mkUrl [120] (Some [104]) (Some [53; 47; 100; 98; 63; 97; 61; 98]) (Some [99]) None None []).
+Proof. vm_compute. reflexivity. Qed.
+(* the other results of the model are reachable: errors are values, not defaults *)
+Example c20_ex_argument_error : parse uw0 [120; 45; 121; 58; 47; 47; 104] = Raise ArgumentError.   (* x-y://h *)
+Proof. vm_compute. reflexivity. Qed.
+Example c20_ex_value_error : parse uw0 [120; 58; 47; 47; 104; 58; 120] = Raise ValueError.           (* x://h:x *)
+Proof. vm_compute. reflexivity. Qed.
+Example c20_ex_empty_port : parse uw0 [120; 58; 47; 47; 104; 58] = Raise ValueError.                 (* x://h:  *)
+Proof. vm_compute. reflexivity. Qed.
+Example c20_ex_surrogate : render (mkUrl [120] (Some [0xD800]) None None None None []) = Raise UnicodeEncodeError.
+Proof. vm_compute. reflexivity. Qed.
+(* x://[]a]:7 : an empty bracket cannot be the ipv6 group, the last ']' closes it *)
+Example c20_ex_bracket_greedy :
+  parse uw0 [120; 58; 47; 47; 91; 93; 97; 93; 58; 55]
+  = Ok (mkUrl [120] None None (Some [93; 97]) (Some 7%Z) None []).
+Proof. vm_compute. reflexivity. Qed.
+(* x://a:b (no '@'): no userinfo, host a, port text "b" *)
+Example c20_ex_no_at : parse uw0 [120; 58; 47; 47; 97; 58; 98] = Raise ValueError.
+Proof. vm_compute. reflexivity. Qed.
+(* ill-formed UTF-8 is replaced, truncated sequence = one U+FFFD: %E2%82A -> U+FFFD 'A' *)
+Example c20_ex_replace : unquote [37; 69; 50; 37; 56; 50; 65] = [0xFFFD; 65].
 Proof. vm_compute. reflexivity. Qed.
